@@ -38,3 +38,4 @@ _case("x_zip_enum", xs=_L, ys=_L)
 _case("x_try", a=Int(-6, 6), items=_L)
 _case("x_chain_cmp", a=_I, b=_I, c=_I)
 _case("x_seq_eq", xs=ListOf(Int(0, 2), max_len=3), ys=ListOf(Int(0, 2), max_len=3), k=Int(0, 3))
+_case("x_namedtuple", a=_I, b=_I, items=_L)
